@@ -239,6 +239,46 @@ def run_cases(ck: Check, n: int):
             ck.mismatch("c17-formulas", f"{req.split()[1]}: impl {want!r} vs generated formula {mv!r}", case)
 
 
+def mixed_periodicity(ck: Check, n: int):
+    """droplet counting on grids where only SOME axes are periodic: translating the field along the periodic axes leaves the
+    count (and the length) unchanged, also for droplets that are cut by the boundary of a periodic axis which FOLLOWS a
+    non-periodic one, and for elongated droplets whose two pieces would not be merged by the overlap filter"""
+    from pde import CartesianGrid, ScalarField
+
+    rng = ck.rng
+    for i in range(n):
+        dim = rng.choice([2, 2, 3])
+        per = [False] * (dim - 1) + [True] if i % 2 == 0 else [rng.random() < 0.5 for _ in range(dim - 1)] + [True]
+        shape = [rng.choice([12, 16, 20]) for _ in range(dim)]
+        dx = rng.choice([1.0, 0.5])
+        grid = CartesianGrid([[0, s * dx] for s in shape], shape, periodic=per)
+        idx = np.indices(shape)
+        data = np.zeros(shape)
+        # ellipsoids elongated along the last (periodic) axis, well inside along the non-periodic axes
+        k = rng.randint(1, 2)
+        for j in range(k):
+            c = [shape[a] * (j + 0.5) / k if a == 0 else shape[a] / 2 for a in range(dim - 1)] + [rng.uniform(0, shape[-1])]
+            semi = [rng.uniform(1.2, 1.8)] * (dim - 1) + [rng.uniform(4.0, min(6.0, shape[-1] / 2 - 1.5))]
+            d2 = sum((((idx[a] + 0.5 - c[a] + shape[a] / 2) % shape[a] - shape[a] / 2) if per[a] else (idx[a] + 0.5 - c[a])) ** 2 / semi[a] ** 2 for a in range(dim))
+            data = np.maximum(data, (d2 < 1).astype(float))
+        field = ScalarField(grid, data)
+        case = {"kind": "mixed-periodicity", "shape": shape, "periodic": per, "dx": dx}
+        sig = {"method": "droplet_detection", "dim": dim, "winding_components": False}
+        ck.case(("mixed", tuple(shape), tuple(per), data.tobytes()))
+        ck.count("mixed_periodicity_fields")
+        base = length(field, "droplet_detection", threshold=0.5)
+        if isinstance(base, str):
+            ck.fail(f"droplet_detection raised {base}", {**sig, "check": "total"}, case)
+            continue
+        for s in range(0, shape[-1], 2):
+            shift = tuple(0 if a < dim - 1 else s for a in range(dim))
+            v = length(ScalarField(grid, np.roll(data, shift, axis=tuple(range(dim)))), "droplet_detection", threshold=0.5)
+            if isinstance(v, str) or not rel_close(v, base, 1e-9):
+                ck.fail(f"droplet_detection: field translated by {shift} cells along the periodic axis: length {v} instead of {base}",
+                        {**sig, "check": "translate"}, {**case, "shift": list(shift), "data": data.astype(int).tolist() if data.size <= 400 else None})
+                break
+
+
 def plane_waves(ck: Check, quick: bool):
     """a plane wave fitting the box, >= 4 cells per period: finite, within half a Fourier bin, any spacing"""
     from pde import CartesianGrid, ScalarField
@@ -286,6 +326,7 @@ def run(ck: Check):
     ck.lean = lean_stage("C17", leanchecker=not ck.quick)
     try:
         run_cases(ck, ck.budget(12, 200))
+        mixed_periodicity(ck, ck.budget(6, 80))
     except RuntimeError as e:
         ck.mismatch("c17-formulas", f"driver unavailable: {e}", {})
     plane_waves(ck, ck.quick)
